@@ -12,6 +12,10 @@ CLAIM = dict(
     design="3/C15",
     note="struct.pack/unpack modelled (B/H/I range checks, little endian). Flag constants regenerated from source.",
     technique="Lean 4 theorems over a hand-written model + differential correspondence + Lean spec as oracle")
+CLAIM["note"] += (" Twin groups (packets equal in every field but one, exact repeats, a share of them on the constructors' default "
+                  "source port 7 / core 31 / chip (0, 0) and default destination) are DECODED from the documented layout and, since "
+                  "the third session, also ENCODED by the implementation in one process: each must give exactly the Lean layout of "
+                  "its own fields (nothing remembered from a packet that differs in one field).")
 
 THEOREMS = ["flags_documented", "sdp_layout", "scp_layout", "sdp_decode_encode",
             "scp_decode_encode", "arg_rule", "tag_isolated", "sdp_reject_wide_tag"]
